@@ -1,5 +1,5 @@
 (* C33 — theorems over the TRANSLATED prime table / size range (Gen.v is regenerated from the Go source on every run). *)
-From Coq Require Import List NArith ZArith Znumtheory.
+From Coq Require Import List NArith ZArith Znumtheory Bool.
 From Verif.C33 Require Import Model Spec Arith Sizes.
 From VerifGen Require Import Gen.
 Import ListNotations.
@@ -23,3 +23,28 @@ Print Assumptions c33_sizes_prime.
 Theorem c33_table_all_prime : Forall (fun p => prime (Z.of_N p)) prime_table.
 Proof. exact (table_check_sound prime_table table_checked). Qed.
 Print Assumptions c33_table_all_prime.
+
+(* Integer ranges in the size computation (Go int multiplication, uint16 table entries, sort.Search's index
+   arithmetic int(uint(i+j)>>1)): nothing can wrap for the translated range, factor and table. *)
+Lemma size_arith_checked :
+  (cfg_max * lut_factor <? 2 ^ 31) && (prime_limit <? 2 ^ 16) && forallb (fun p => p <? 2 ^ 16) prime_table
+  && (2 * len prime_table <? 2 ^ 31) = true.
+Proof. vm_cast_no_check (eq_refl true). Qed.
+
+Lemma size_arith_no_wrap :
+  cfg_max * lut_factor < 2 ^ 31 /\ prime_limit < 2 ^ 16 /\
+  Forall (fun p => p < 2 ^ 16) prime_table /\ 2 * len prime_table < 2 ^ 31.
+Proof.
+  pose proof size_arith_checked as H.
+  apply Bool.andb_true_iff in H. destruct H as [H H4].
+  apply Bool.andb_true_iff in H. destruct H as [H H3].
+  apply Bool.andb_true_iff in H. destruct H as [H1 H2].
+  repeat split; try (now apply N.ltb_lt).
+  apply Forall_forall. intros p Hp. apply N.ltb_lt. revert p Hp. apply forallb_forall. exact H3.
+Qed.
+
+Theorem c33_size_arith_no_wrap :
+  cfg_max * lut_factor < 2 ^ 31 /\ prime_limit < 2 ^ 16 /\
+  Forall (fun p => p < 2 ^ 16) prime_table /\ 2 * len prime_table < 2 ^ 31.
+Proof. exact size_arith_no_wrap. Qed.
+Print Assumptions c33_size_arith_no_wrap.
